@@ -482,6 +482,40 @@ Proof.
   destruct (fold_left (stepi xd) se (fun _ => None) k); symmetry; exact Gen.
 Qed.
 
+(* ================= Operator.__call__ of a ProductSpaceOperator ================= *)
+Lemma in_pspace_true (sps : list space) : forall (xs : list nat) (s : sR),
+  length xs = length sps ->
+  (forall k o sp, nth_error xs k = Some o -> nth_error sps k = Some sp -> exists d, rd s o = Some (sp, d)) ->
+  in_pspace sps xs s = true.
+Proof.
+  induction sps as [|sp r IH]; intros [|x xs] s L H; cbn in L; try discriminate; [reflexivity|].
+  cbn [in_pspace]. destruct (H 0%nat x sp eq_refl eq_refl) as (d & E).
+  rewrite (in_space_elem _ _ _ _ E). cbn [andb]. apply IH; [lia|].
+  intros k o sp' Ek Es. apply (H (S k) o sp' Ek Es).
+Qed.
+
+(* op(x, out=y) for product elements: returns the very parts of y, holding the rows *)
+Theorem pso_call_in_place ro doms rans xs outs xd (se : list sent) (s : sR) :
+  Forall (ent_ok ro doms rans) se -> outs_static ro rans xs outs -> args_ok ro doms xs xd s ->
+  (forall i o ri, nth_error outs i = Some o -> nth_error rans i = Some ri -> exists d, rd s o = Some (ri, d)) ->
+  (forall o, In o outs -> zero_safe s o) ->
+  exists s', pso_call junk (map fst se) doms rans xs (Some outs) s = Ok outs s' /\
+    (forall i o ri, nth_error outs i = Some o -> nth_error rans i = Some ri ->
+        rd s' o = Some (ri, cl (ip_rows rans xd se i))) /\
+    ext s s' outs /\ wf_store s'.
+Proof.
+  intros HF HO HA Hex Hz.
+  destruct (pso_ip_ok ro doms rans xs outs xd se s HF HO HA Hex Hz) as (s' & Hip & R & E & W').
+  destruct HA as (W & G & X & Lx). destruct HO as (ND & Lo & Ox & Oro).
+  unfold pso_call.
+  rewrite (bind_Ok _ _ s true s).
+  2:{ f_equal. apply in_pspace_true; [exact Lx|]. intros k o sp Ek Es. eexists. apply (X k o sp Ek Es). }
+  cbn [negb].
+  rewrite (bind_Ok _ _ s true s) by (f_equal; apply in_pspace_true; [exact Lo | exact Hex]).
+  cbn [negb]. rewrite (bind_Ok _ _ _ _ _ Hip). cbn [ret].
+  exists s'. splits; [reflexivity | exact R | exact E | exact W'].
+Qed.
+
 (* ================= ComponentProjectionAdjoint in place ================= *)
 Theorem cpadj_ip_ok i x (outs : list nat) (sps : list space) (s : sR) dx spi oi :
   wf_store s -> NoDup outs -> length outs = length sps -> ~ In x outs ->
